@@ -69,6 +69,7 @@ func propC07(c *Ctx) string {
 	c07Table(c, v)
 	c07RelTerm(c, v)
 	c07DelOrder(c, v)
+	c07ReqTokens(c, v, "C07")
 
 	c.NotDecide("arbitrary interleavings of retransmitted PUBLISH/PUBREL with connection failures (schedules, crash points)",
 		"custom Backend implementations that acknowledge late or from another goroutine: only the closure contents and MemoryBackend.Publish are decided",
